@@ -506,6 +506,8 @@ func (b *Buffer) deleteGlyphsInplace(filter func(*GlyphInfo) bool) {
 		j    int
 		info = b.Info
 		pos  = b.Pos
+		// false when the positions are not computed yet (see clearPositions)
+		havePositions = len(b.Pos) == len(b.Info)
 	)
 	for i := range info {
 		if filter(&info[i]) {
@@ -540,12 +542,16 @@ func (b *Buffer) deleteGlyphsInplace(filter func(*GlyphInfo) bool) {
 
 		if j != i {
 			info[j] = info[i]
-			pos[j] = pos[i]
+			if havePositions {
+				pos[j] = pos[i]
+			}
 		}
 		j++
 	}
 	b.Info = b.Info[:j]
-	b.Pos = b.Pos[:j]
+	if havePositions {
+		b.Pos = b.Pos[:j]
+	}
 }
 
 // unsafeToBreak adds the flag `GlyphFlagUnsafeToBreak`
@@ -666,8 +672,16 @@ func (b *Buffer) reverseRange(start, end int) {
 		return
 	}
 	info := b.Info[start:end]
-	pos := b.Pos[start:end]
 	L := len(info)
+	if len(b.Pos) != len(b.Info) {
+		// the positions are not computed yet (see clearPositions) : only reverse the glyphs
+		for i := L/2 - 1; i >= 0; i-- {
+			opp := L - 1 - i
+			info[i], info[opp] = info[opp], info[i]
+		}
+		return
+	}
+	pos := b.Pos[start:end]
 	_ = pos[L-1] // BCE
 	for i := L/2 - 1; i >= 0; i-- {
 		opp := L - 1 - i
